@@ -18,6 +18,9 @@ typedef struct { bool cb, wsid_open, wsid_is_queued_connect, wfd_open; size_t op
 static void sd_post(TcpEngine *self, const sd_expect *xp, const iora_promise *P)
 {
   sd_expect x = *xp;
+  /* a session that the final process() created (queued Connect executed) is one more open session with a fresh id / fd */
+  if (G_proc_inserted) { x.open0 += 1; if (G_proc_sid == G_WSID) x.wsid_open = 1; if (G_proc_fd == G_WFD) x.wfd_open = 1; IORA_CANARY("shutdownDrain: process() executed a queued connect"); }
+  __CPROVER_assert(G_proc_calls == 1, "SD-O the command queue is drained exactly once");
   if (x.wsid_open) { __CPROVER_assert(G_cbw_calls == (x.cb ? 1u : 0u), "SD-A an open session gets its close notification exactly once"); IORA_CANARY("shutdownDrain: witness id is an open session"); }
   if (x.wsid_is_queued_connect) { __CPROVER_assert(G_cbw_calls == (x.cb ? 1u : 0u), "SD-2 a connect still queued when the queue is closed gets its close notification (the application holds that id)"); IORA_CANARY("shutdownDrain: witness id is a queued connect"); }
   if (!x.wsid_open && !x.wsid_is_queued_connect) __CPROVER_assert(G_cbw_calls == 0, "SD-A0 no close notification for an id that is neither an open session nor a queued connect");
@@ -40,6 +43,7 @@ void h_shutdownDrain(void)
   G_seq = 0; G_cb_calls = 0; G_cbw_calls = 0; G_cbw_in_table = 0; G_wfd_close_calls = 0; G_wfd_del_calls = 0; G_wfd_close_seq = 0; G_wfd_del_seq = 0; G_promise_sets = 0;
   G_fdclose_calls = 0; G_sslshut_calls = 0; G_sslfree_calls = 0; G_ep_dels = 0; G_ep_mods = 0; G_errno = nondet_int();
   G_WSID = nondet_u64(); G_WFD = nondet_int();
+  G_sd_cleared = 0; G_proc_calls = 0; G_proc_inserted = 0; IORA_PROC_MAY_INSERT = 1; G_proc_sid = nondet_u64(); G_proc_fd = nondet_int(); __CPROVER_assume(G_proc_fd >= 2000 && G_proc_fd < 3000);
   /* engine: no mutex held, fds open or not */
   E._cbMutex.held = 0; E._sessionRwMutex.held = 0; E._cmdMutex.held = 0; E._cmdsClosed = 0;
   E._cbs.onClose = nondet_bool(); E._cbs.onData = nondet_bool(); E._cbs.onAccept = nondet_bool(); E._cbs.onConnect = nondet_bool(); E._cbs.onError = nondet_bool();
@@ -57,6 +61,7 @@ void h_shutdownDrain(void)
       Session *s = malloc(sizeof(Session)); __CPROVER_assume(s != NULL); iora_canon_session(s);
       __CPROVER_assume(s->fd >= 100 && s->fd < 1000);
       for (size_t j = 0; j < IORA_NS; j++) if (j < i) __CPROVER_assume(S[j]->id != s->id && S[j]->fd != s->fd && (s->ssl == NULL || S[j]->ssl != s->ssl));   /* ids, fds, SSL objects are not shared */
+      __CPROVER_assume(s->id != G_proc_sid);
       S[i] = s; S0[i] = *s; E._sessions.v[i] = s;
       Tag *t = malloc(sizeof(Tag)); __CPROVER_assume(t != NULL); t->isListener = 0; t->lst = NULL; t->sess = s;
       E._fdTags.fd[E._fdTags.n] = s->fd; E._fdTags.v[E._fdTags.n] = t; E._fdTags.n++;
@@ -81,6 +86,7 @@ void h_shutdownDrain(void)
     {
       for (size_t j = 0; j < IORA_NS; j++) if (j < ns) __CPROVER_assume(S[j]->id != c->c.sid);
       for (size_t j = 0; j < IORA_NC; j++) if (j < i && E._cmds.v[j].t == Cmd_Connect) __CPROVER_assume(E._cmds.v[j].c.sid != c->c.sid);
+      __CPROVER_assume(c->c.sid != G_proc_sid);
       if (c->c.sid == G_WSID) wsid_is_queued_connect = 1;
     }
   }
@@ -102,6 +108,7 @@ void h_sd_step(void)
 {
   TcpEngine E; TcpEngine *self = &E;
   IORA_TRUE = 1;
+  G_sd_cleared = 0; G_proc_calls = 0; G_proc_inserted = 0; IORA_PROC_MAY_INSERT = 0;
   G_seq = nondet_unsigned(); __CPROVER_assume(G_seq < 1000);
   G_cb_calls = 0; G_cbw_calls = 0; G_wfd_close_calls = 0; G_wfd_del_calls = 0; G_fdclose_calls = 0; G_sslshut_calls = 0; G_sslfree_calls = 0; G_ep_dels = 0; G_ep_mods = 0; G_errno = nondet_int();
   E._cbMutex.held = 0; E._sessionRwMutex.held = 0; E._cmdMutex.held = 0; E._cbs.onClose = nondet_bool();
@@ -315,11 +322,12 @@ void h_accept_tail(void)
  *   HASCB close callback registered, W = which id is the witness: 0..2 session i, 3 = first queued connect, 4 = an unknown id */
 void h_search(void)
 {
-  size_t NS = nondet_size_t(), NL = nondet_size_t(), NCONN = nondet_size_t(), HASCB = nondet_size_t(), SSLMASK = nondet_size_t(), W = nondet_size_t();
+  size_t NS = nondet_size_t(), NL = nondet_size_t(), NCONN = nondet_size_t(), HASCB = nondet_size_t(), SSLMASK = nondet_size_t(), W = nondet_size_t(), PRE = 0; (void)PRE;   /* PRE: replay-only (connects queued before the drain) */
   __CPROVER_assume(NS <= IORA_NS && NL <= IORA_NL && NCONN <= IORA_NC && HASCB <= 1 && SSLMASK <= 7 && W <= 4);
   IORA_TRUE = 1;
   G_seq = 0; G_cb_calls = 0; G_cbw_calls = 0; G_cbw_in_table = 0; G_wfd_close_calls = 0; G_wfd_del_calls = 0; G_wfd_close_seq = 0; G_wfd_del_seq = 0; G_promise_sets = 0;
   G_fdclose_calls = 0; G_sslshut_calls = 0; G_sslfree_calls = 0; G_ep_dels = 0; G_ep_mods = 0; G_errno = 0;
+  G_sd_cleared = 0; G_proc_calls = 0; G_proc_inserted = 0; IORA_PROC_MAY_INSERT = 0; G_proc_sid = 31; G_proc_fd = 2001;
   TcpEngine E = {0}; TcpEngine *self = &E;
   E._cbs.onClose = HASCB != 0; E._epollFd = 5; E._eventFd = 6; E._timerFd = 7;
   E._sessions.n = NS; E._listeners.n = NL; E._cmds.n = NCONN;
